@@ -625,6 +625,9 @@ class Machine(object):
                 return
             obj.touched_inside = True
             X = self.cur(obj.ref, obj.kind)
+            if obj.kind == "ham" and obj.extra.get("JR") is not None:
+                # the split-off couplings travel with the Hamiltonian: frozen in the same representation
+                obj.extra["JR_frozen"] = self.cur(obj.extra["JR"], "ham")
             obj.live.protect_basis()
             obj.protected = True
             obj.frozen = (X, len(self.T))
@@ -737,6 +740,8 @@ class Machine(object):
                     self.dead = True
                 o.protected = False
                 o.ref = self.to_outer(X, o.kind)
+                if o.extra.get("JR_frozen") is not None:
+                    o.extra["JR"] = self.to_outer(o.extra.pop("JR_frozen"), "ham")
                 if not self.dead:
                     self.read(o, "protected-inside/after-exit", where=o.kind)
         after = self.snapshot()
